@@ -89,15 +89,21 @@ ASSUMPTIONS = [
 ]
 
 
+# The abstract state every later statement reads.  Step is deterministic, so two interpreters that differ here
+# have different futures for SOME continuation (seed C03-b: inner loops kept by NEXT of an outer loop only show
+# in the output of a program that jumps over the inner FOR).  A difference in these fields is therefore charged
+# to the session property being checked, not filed as "unexplained".
+CORE_STATE = {"mode", "loc", "bp", "stack", "loops", "data", "fns", "vars", "arrays", "input"}
+
+
 def attribute(pid, fields):
-    # the interpreter's mode after a call (does the run go on, await input, end?) is part of what
-    # every session property means by "behaves"
-    return bool(set(fields) & (PI[pid] | {"mode"}))
+    return bool(set(fields) & (PI[pid] | CORE_STATE))
 
 
 def run(pid, tier, seed):
     t0 = time.time()
     pl = plan(pid, tier)
+    import json
     wd = c.workdir(pid)
     c.build_harness()
     violations, unexplained = [], []
@@ -135,6 +141,8 @@ def run(pid, tier, seed):
                         violations.append({**v, "property": pid})
                     else:
                         unexplained.append(v["features"]["fields"])
+                elif v["class"] in ("panic", "caret_rendering_panicked", "error_without_idle"):
+                    violations.append({**v, "property": pid})       # a crash is a violation of whatever is being checked
                 else:
                     violations.append(v)
 
@@ -162,6 +170,8 @@ def run(pid, tier, seed):
                 cov["samples"] += rep["samples"][:2]
             rerun = {"recorder": cmds[k][0][:-2], "trace_spec": "Trace_Session"}
             for v in rep["violations"]:
+                if v["class"] in ("panic", "caret_rendering_panicked", "error_without_idle"):
+                    v = {**v, "property": pid}
                 violations.append({**v, "rerun": rerun})
             for v in vs:
                 ev = events[v["i"] - 1]
